@@ -3,6 +3,7 @@ summer2 source in /repo (on the NumPy-backed jax stand-in) and returns the obser
 same shape as harness/driver.ml prints them.  Must be run with
 PYTHONPATH=/verif/harness/jaxshim:<repo> (see runner.py)."""
 import json
+import os
 import sys
 import warnings
 from fractions import Fraction
@@ -74,6 +75,22 @@ def expr(e):
     raise ValueError(e)
 
 
+def pyval(v):
+    """an arbitrary Python value handed over as a flow rate"""
+    (k, x), = v.items()
+    if k == "num":
+        return num(x)
+    if k == "graph":
+        return expr(x)
+    if k == "str":
+        return str(x)
+    if k == "none":
+        return None
+    if k == "list":
+        return [num(q) for q in x]
+    raise ValueError(v)
+
+
 def adj(a):
     if a is None:
         return None
@@ -126,26 +143,32 @@ def apply_op(m, o):
         kind, name = o["kind"], o["name"]
         sf, df = o.get("sf") or None, o.get("df") or None
         exp = o.get("expected")
+        if o.get("pyrate") is not None:
+            # the rate is whatever Python value the program says: the library's own check decides
+            o = dict(o)
+            expr_ = lambda _e, _v=pyval(o["pyrate"]): _v
+        else:
+            expr_ = expr
         if kind == "crude_birth":
-            m.add_crude_birth_flow(name, expr(o["param"]), o["dst"], df, exp)
+            m.add_crude_birth_flow(name, expr_(o.get("param")), o["dst"], df, exp)
         elif kind == "replacement_birth":
             m.add_replacement_birth_flow(name, o["dst"], df, exp)
         elif kind == "importation":
-            m.add_importation_flow(name, expr(o["param"]), o["dst"], bool(o.get("split", False)), df, exp)
+            m.add_importation_flow(name, expr_(o.get("param")), o["dst"], bool(o.get("split", False)), df, exp)
         elif kind == "death":
-            m.add_death_flow(name, expr(o["param"]), o["src"], sf, exp)
+            m.add_death_flow(name, expr_(o.get("param")), o["src"], sf, exp)
         elif kind == "transition":
-            m.add_transition_flow(name, expr(o["param"]), o["src"], o["dst"], sf, df, exp)
+            m.add_transition_flow(name, expr_(o.get("param")), o["src"], o["dst"], sf, df, exp)
         elif kind == "absolute":
-            m.add_transition_flow(name, expr(o["param"]), o["src"], o["dst"], sf, df, exp, absolute=True)
+            m.add_transition_flow(name, expr_(o.get("param")), o["src"], o["dst"], sf, df, exp, absolute=True)
         elif kind == "infection_frequency":
-            m.add_infection_frequency_flow(name, expr(o["param"]), o["src"], o["dst"], sf, df, exp)
+            m.add_infection_frequency_flow(name, expr_(o.get("param")), o["src"], o["dst"], sf, df, exp)
         elif kind == "infection_density":
-            m.add_infection_density_flow(name, expr(o["param"]), o["src"], o["dst"], sf, df, exp)
+            m.add_infection_density_flow(name, expr_(o.get("param")), o["src"], o["dst"], sf, df, exp)
         else:
             raise ValueError(kind)
     elif k == "udeath":
-        m.add_universal_death_flows(o["name"], expr(o["param"]))
+        m.add_universal_death_flows(o["name"], pyval(o["pyrate"]) if o.get("pyrate") is not None else expr(o["param"]))
     elif k == "strat":
         m.stratify_with(build_strat(o))
     elif k == "rebalance":
@@ -437,14 +460,45 @@ def build(prog):
     return m, None, None
 
 
+class ObservationTimeLimit(BaseException):
+    """one observation ran longer than OBS_LIMIT seconds (a solver crawling towards a finite-time blow-up, for
+    instance): outside the domain of every property, reported as such and never compared"""
+
+
+OBS_LIMIT = int(os.environ.get("SUMMER2_VERIF_OBS_LIMIT", "25"))
+
+
+def _alarm(signum, frame):
+    import signal
+    signal.alarm(1)      # (handlers that catch BaseException inside an oracle are interrupted again until the limit surfaces)
+    raise ObservationTimeLimit()
+
+
 def run_program(prog):
-    m, err, why = build(prog)
+    import signal
+    signal.signal(signal.SIGALRM, _alarm)
+    signal.alarm(OBS_LIMIT)
+    try:
+        m, err, why = build(prog)
+    except ObservationTimeLimit:
+        return {"harness_error": "time limit while building"}
+    finally:
+        signal.alarm(0)
     if err is not None:
         return {"build_error": err, "why": why}
     out = []
     for o in prog.get("obs", []):
         try:
-            out.append(observe(m, o))
+            signal.alarm(OBS_LIMIT)
+            try:
+                r_ = observe(m, o)
+            finally:
+                signal.alarm(0)
+            if isinstance(r_, dict) and any("ObservationTimeLimit" in str(v) for v in r_.get("violations") or []):
+                raise ObservationTimeLimit()
+            out.append(r_)
+        except ObservationTimeLimit:
+            out.append({"error": "domain: time limit of %d s" % OBS_LIMIT})
         except (KeyboardInterrupt, SystemExit):
             raise
         except BaseException as e:  # noqa
